@@ -119,6 +119,31 @@ func (c *Ctx) cxn() *cxnAnchors {
 			}
 		}
 	}
+	// the loop that receives the events may hand each of them to a step method (`for cc.step(<-cc.csceCh) {}`): the state
+	// machine is then that method
+	if a.runFn != nil {
+		for _, in := range instrsOf(a.runFn) {
+			call, ok := in.(*ssa.Call)
+			if !ok {
+				continue
+			}
+			g := call.Call.StaticCallee()
+			if g == nil || !c.InPkg(g) || g.Signature.Recv() == nil || !c.isPkgType(g.Signature.Recv().Type(), "clientCxn") {
+				continue
+			}
+			takesEvent := false
+			for _, arg := range call.Call.Args {
+				if u, ok := arg.(*ssa.UnOp); ok && u.Op == token.ARROW {
+					if _, f := loadedField(u.X); f == fCh {
+						takesEvent = true
+					}
+				}
+			}
+			if takesEvent {
+				a.runFn = g
+			}
+		}
+	}
 	if a.parseFn == nil && a.runFn != nil {
 		// the parser may be made by a helper type that holds the pending bytes (`cc.inbound.nextCommand()`): the function
 		// the run loop reaches that creates the deserializer
@@ -759,7 +784,7 @@ func ruleC01LenPrefix(c *Ctx) {
 	// the serializer: the type switch over a reply's data that returns nothing (it writes), and what it reaches
 	scope := map[*ssa.Function]bool{}
 	for _, sw := range c.respDataSwitches() {
-		if sw.fn.Signature.Recv() == nil || sw.fn.Signature.Results().Len() != 0 {
+		if !isSerializerFn(sw.fn) {
 			continue
 		}
 		scope[sw.fn] = true
@@ -980,7 +1005,7 @@ func ruleC01Line(c *Ctx) {
 	// the line emitter: called from the serializer's type switch for respSimpleString / respErrorString cases
 	var emit *ssa.Function
 	for _, sw := range c.respDataSwitches() {
-		if sw.fn.Signature.Recv() == nil || sw.fn.Signature.Results().Len() != 0 {
+		if !isSerializerFn(sw.fn) {
 			continue
 		}
 		for _, in := range instrsOf(sw.fn) {
@@ -1001,7 +1026,7 @@ func ruleC01Line(c *Ctx) {
 	if emit == nil {
 		// the function the serializer calls in its cases for the line-oriented kinds (simple string, error)
 		for _, sw := range c.respDataSwitches() {
-			if sw.fn.Signature.Recv() == nil || sw.fn.Signature.Results().Len() != 0 {
+			if !isSerializerFn(sw.fn) {
 				continue
 			}
 			for _, in := range instrsOf(sw.fn) {
@@ -1849,4 +1874,25 @@ func ruleC01SingleWriter(c *Ctx) {
 			c.S.Bad("R-C01-single-writer", key, c.Pos(w.Pos()), fmt.Sprintf("%s writes to the socket outside the reply path (no dispatch of a command precedes it): the client receives a line that answers no command, e.g. while a request is still arriving in pieces", fnName(w.Parent())))
 		}
 	}
+}
+
+// isSerializerFn: a method whose type switch over a reply's data puts the reply on the wire: it returns nothing (it
+// writes into a builder it was given) or the bytes (append style)
+func isSerializerFn(fn *ssa.Function) bool {
+	if fn.Signature.Recv() == nil {
+		return false
+	}
+	res := fn.Signature.Results()
+	if res.Len() == 0 {
+		return true
+	}
+	if res.Len() != 1 {
+		return false
+	}
+	sl, ok := res.At(0).Type().Underlying().(*types.Slice)
+	if !ok {
+		return false
+	}
+	b, ok := sl.Elem().Underlying().(*types.Basic)
+	return ok && b.Kind() == types.Byte
 }
